@@ -447,7 +447,9 @@ class Run:
             if t.is_alive():
                 raise HarnessError("portal.call(portal.stop) did not return")
             if "exc" in res:
-                raise HarnessError(f"portal.call(portal.stop) raised {res['exc']!r}")
+                # nobody stopped the portal, yet it refuses: it shut down on its own
+                self.end_state["portal_died"] = repr(res["exc"])
+                raise _ExitHung()
         self.stopped = True
         self.stop_cr = self.stop_cr or bool(cr)
         self.settle()
@@ -620,6 +622,9 @@ def oracle(r: Run) -> str | None:
             issue_seq[rec[2]] = seq
         elif kind == "blocker_timeout":
             return "harness: blocker timed out"
+    if r.end_state.get("portal_died"):
+        return ("portal.call(portal.stop) was refused although the portal had not been stopped: the portal "
+                f"shut down on its own ({r.end_state['portal_died']})")
     if r.end_state.get("hung_calls"):
         c = r.end_state["hung_calls"][0]
         return (f"call {c}: the callable finished ({r.ended[c][0]}) but the caller was left hanging "
